@@ -92,6 +92,9 @@ Print Assumptions C05_grid_oracle_partial.
    A state (src, d0) means "leaves src travelling d0" (sd = mask of allowed directions of the first segment), a state
    (dst, d1) "arrived at dst travelling d1" (ad = mask of allowed travel directions of the last segment: for libavoid
    ConnDirFlags, which name the SIDE of the endpoint the connector attaches to, the reverse of each flag).
+   No move leads INTO src (third predicate argument of gwalk: a path never returns to / passes through its own source) and none
+   OUT of dst (fourth: a path ends when it reaches its target; it does not run through it and come back) - with these two rules a
+   walk cannot profit from doubling back, which the turn rule alone would permit as two turns at one point.
    gwalk = arbitrary finite walks.  So: the oracle's cost is <= length + pen * bends of
    every orthogonal path ON THAT GRID that avoids the rectangle interiors, for every allowed start / arrival direction.
    Still assumed, not proved (b): HANAN-GRID SUFFICIENCY - some optimal orthogonal obstacle-avoiding path of the plane
@@ -100,7 +103,7 @@ Theorem C05_grid_oracle_optimal rs src dst pen sd ad fuel k p :
   (0 <= pen)%Z ->
   oracle_dirs rs src dst pen sd ad fuel = OR_cost k p ->
   forall d0 d1 C, (0 <= d0 <= 3)%Z -> dir_allowed sd d0 = true -> dir_allowed ad d1 = true ->
-    gwalk rs (hanan_xs rs src dst) (hanan_ys rs src dst) pen (noturn src dst) (src, d0) (dst, d1) C -> (k <= C)%Z.
+    gwalk rs (hanan_xs rs src dst) (hanan_ys rs src dst) pen (noturn src dst) (fun p => zp_eqb p src) (fun p => zp_eqb p dst) (src, d0) (dst, d1) C -> (k <= C)%Z.
 Proof. exact (fun H => grid_oracle_optimal rs src dst pen sd ad fuel H k p). Qed.
 Print Assumptions C05_grid_oracle_optimal.
 
@@ -108,7 +111,7 @@ Theorem C05_grid_oracle_unreachable rs src dst pen sd ad fuel :
   (0 <= pen)%Z ->
   oracle_dirs rs src dst pen sd ad fuel = OR_unreachable ->
   forall d0 d1 C, (0 <= d0 <= 3)%Z -> dir_allowed sd d0 = true -> dir_allowed ad d1 = true ->
-    ~ gwalk rs (hanan_xs rs src dst) (hanan_ys rs src dst) pen (noturn src dst) (src, d0) (dst, d1) C.
+    ~ gwalk rs (hanan_xs rs src dst) (hanan_ys rs src dst) pen (noturn src dst) (fun p => zp_eqb p src) (fun p => zp_eqb p dst) (src, d0) (dst, d1) C.
 Proof. exact (grid_oracle_unreachable rs src dst pen sd ad fuel). Qed.
 Print Assumptions C05_grid_oracle_unreachable.
 
@@ -119,6 +122,6 @@ Print Assumptions C05_noturn_false.
 Theorem C05_grid_oracle_optimal_plain rs src dst pen fuel k p :
   (0 <= pen)%Z -> oracle rs src dst pen fuel = OR_cost k p ->
   forall d0 d1 C, (0 <= d0 <= 3)%Z -> (0 <= d1 <= 3)%Z ->
-    gwalk rs (hanan_xs rs src dst) (hanan_ys rs src dst) pen (noturn src dst) (src, d0) (dst, d1) C -> (k <= C)%Z.
+    gwalk rs (hanan_xs rs src dst) (hanan_ys rs src dst) pen (noturn src dst) (fun p => zp_eqb p src) (fun p => zp_eqb p dst) (src, d0) (dst, d1) C -> (k <= C)%Z.
 Proof. exact (grid_oracle_optimal_plain rs src dst pen fuel k p). Qed.
 Print Assumptions C05_grid_oracle_optimal_plain.
